@@ -57,8 +57,12 @@ def handle(job):
   try:
     r = dsrun.Runner(o, shapes, seed)
     T = len(steps)
-    grads = dsrun.make_grads(shapes, ["ok"] * T, seed)
     n = len(shapes)
+    # a third of the jobs: now and then a parameter receives an exactly-zero gradient (the statistics are
+    # still discounted, the graft accumulators still decay, the momentum still moves)
+    classes = [["zero" if (seed % 3 == 0 and (seed // 3 + t + 2 * i) % 4 == 1) else "ok" for i in range(n)]
+               for t in range(T)]
+    grads = dsrun.make_grads(shapes, classes, seed)
     geos = [refds.Geometry(s, geo["block"], geo["merge"], geo["merge_limit"], geo["ptype"], geo["override"])
             for s in shapes]
     params = [np.asarray(r.params[f"p{i}"], np.float64) for i in range(n)]
